@@ -1272,6 +1272,10 @@ class SetSites:
             if r is not None: return r
             return '?'
         if isinstance(e, ast.BinOp):
+            # dict views support the set operators and then yield a SET (hash order): `a.keys() & b.keys()`, `d.keys() - seen`, `d.items() ^ e.items()`
+            if isinstance(e.op, (ast.BitAnd, ast.BitOr, ast.Sub, ast.BitXor)):
+                view = lambda x: isinstance(x, ast.Call) and isinstance(x.func, ast.Attribute) and x.func.attr in ('keys', 'items') and not x.args
+                if view(e.left) or view(e.right): return ('set', '?')
             l, r = self.infer(fi, e.left), self.infer(fi, e.right)
             if (isinstance(l, tuple) and l[0] == 'set') or (isinstance(r, tuple) and r[0] == 'set'):
                 return tjoin(l if isinstance(l, tuple) else ('set', None if l is None else '?'), r if isinstance(r, tuple) else ('set', None if r is None else '?'))
